@@ -55,6 +55,8 @@ CLAIM = dict(
           "choice).  Explicit start positions "
           "are non-negative (documented 0-based index).  A RecursionError of _Tree.add_field (instance values selecting "
           "fields of two children of one node) is modelled as an error and ends the history.  "
+          "Masks of partially specified instances (get_mask needs no values) are judged by the mask_exact oracle as "
+          "well as compared with the model; keys only exist for complete instances.  "
           "HARDENING (what the streams do, and what is left out on purpose): every call may use other argument kinds "
           "(values / lengths / positions / the bit-field length as bool or IntEnum members; tags as None, str, list, tuple, "
           "set, frozenset, generator, iterator, dict view, incl. the tags '', '%s', '{}', 't 0'), other calling conventions "
@@ -93,7 +95,17 @@ RULE = ("histories of 6-40 operations generated against the running implementati
         "tight for the hierarchy in half of the cases; plus a wide stream: bit fields of 64-160 bits (and the exact-fit / "
         "one-bit-short re-runs) with 2-5 automatically sized neighbouring fields (and one in a child scope) whose largest "
         "values are 2^k - 1, 2^k, 2^k + 1 for k in 0..100 biased to 30..70, several complete instances, and fixed "
-        "boundary cases k in {44,47,48,49,50,52,53,63,64,65,80,100}; in 40 % of the histories every call draws its "
+        "boundary cases k in {44,47,48,49,50,52,53,63,64,65,80,100}; plus a deep stream: hierarchies 2-4 levels deep (a "
+        "selector per level, scopes for both selector values, sibling scopes re-using names), in every scope fields with "
+        "every mix of {start_at given or not} x {length given or not}, explicit positions placed directly next to (0-3 "
+        "bits from) whatever is already positioned anywhere in the tree - parents, children, grandchildren, siblings "
+        "under other selector values - and every field with a given start and automatic length gets a value that makes "
+        "it stop one short of, exactly at, or one past the next positioned field above it (assign_fields must raise or "
+        "lay out without overlap); tags at depths 0, 1, 2+; every prefix of every selector chain (none, first, "
+        "first+second, ...) is an instance on which get_mask / get_value (no tag, tag) / get_tags / "
+        "get_location_and_length are called; for every instance of every history - complete or partially specified - "
+        "get_mask() and get_mask(tag) are read back and judged by the Lean mask_exact oracle on the implementation's own "
+        "tree; in 40 % of the histories every call draws its "
         "argument kinds and calling convention (recorded in the op), 30 % build the bit field another way (keyword / "
         "default / IntEnum length, subclass); one history in ten is also run interleaved op by op with a twin (one "
         "length / value / tag / position / op / bit-field length changed) or the previous history on a second live bit "
@@ -577,6 +589,96 @@ def big_value(rng, k=None):
     return max(0, (1 << k) + rng.choice([-1, 0, 0, 1]))
 
 
+def gen_deep_history(rng):
+    """hierarchies 2-4 levels deep: a selector per level, scopes for several selector values, in every scope fields
+    with every mix of {start_at given or not} x {length given or not}, explicit positions chosen next to what is
+    already positioned anywhere in the tree (parents, children, grandchildren, siblings under other selector values);
+    fields with a given start and automatic length then get values that make them reach one short of / exactly to /
+    one past the next positioned field above them; every prefix of every selector chain is an instance that is queried
+    (mask / value / tags / location, with no tag and with tags living at different depths)"""
+    USED_VALUES.clear()
+    L = rng.choice([12, 16, 16, 20, 24, 32])
+    run = new_runner(rng, L)
+    depth = rng.choice([2, 2, 3, 3, 4])
+    sel_explicit = rng.random() < 0.5
+    grow = []                  # (instance, identifier, start) of fields with a given start and automatic length
+    prefixes = [0]
+
+    def positioned():
+        return [(e["start"], e["start"] + (e["length"] or 1)) for e in run.dump() if e["start"] is not None]
+
+    def add_data(inst, level, k):
+        mode = rng.choice(["ff", "fl", "sf", "sf", "sl", "sl"])
+        ident = "d%d%s" % (level, "xyz"[k])          # sibling scopes re-use the names
+        length = None if mode[1] == "f" else rng.choice([1, 2, 3, 4])
+        start = None
+        if mode[0] == "s":
+            pos = positioned()
+            w = length or 1
+            cands = [0] + [e + rng.choice([0, 0, 1, 2, 3]) for _, e in pos] + [s0 - w for s0, _ in pos]
+            cands = [c for c in cands if 0 <= c and c + w <= L - (depth + 1 if sel_explicit else 0)] or [0]
+            start = rng.choice(cands)
+        tags = ["t%d" % min(level, 2)] if rng.random() < 0.35 else []
+        r = run.do({"op": "add", "inst": inst, "ident": ident, "length": length, "start": start, "tags": tags})
+        if "ok" in r and mode == "sf":
+            grow.append((inst, ident, start))
+
+    frontier = [0]
+    for level in range(depth + 1):
+        nxt = []
+        for inst in frontier:
+            for k in range(rng.randrange(1, 3)):
+                if not run.dead:
+                    add_data(inst, level, k)
+            if level < depth and not run.dead:
+                sel = "s%d" % level
+                r = run.do({"op": "add", "inst": inst, "ident": sel, "length": 1 if rng.random() < 0.8 else None,
+                            "start": (L - 1 - level) if sel_explicit else None,
+                            "tags": ["t%d" % min(level, 2)] if rng.random() < 0.15 else []})
+                if "ok" in r:
+                    for v in rng.sample([0, 1], rng.choice([1, 2, 2])):
+                        if "ok" in run.do({"op": "call", "inst": inst, "kw": [[sel, v]]}):
+                            nxt.append(len(run.insts) - 1)
+            if run.dead:
+                return seal(run)
+        prefixes += nxt
+        rng.shuffle(nxt)
+        frontier = nxt[:3 if level == 0 else 2]
+    if rng.random() < 0.15:
+        run.do({"op": "assign"})
+    # values: automatic lengths that stop short of, touch, or run into the next positioned field above
+    walls = sorted(s0 for s0, _ in positioned())
+    for inst, ident, start in grow:
+        if run.dead:
+            return seal(run)
+        above = [q for q in walls if q > start]
+        ln = (above[0] - start + rng.choice([-1, 0, 0, 1, 1])) if above else rng.randrange(1, 5)
+        if ln >= 1:
+            val = rng.choice([1 << (ln - 1), (1 << ln) - 1])
+            run.do({"op": "call", "inst": inst, "kw": [[ident, val]]})
+    if run.dead:
+        return seal(run)
+    run.do({"op": "assign"})
+    # every prefix of every selector chain is queried
+    rng.shuffle(prefixes)
+    for i in prefixes[:8]:
+        if run.dead:
+            break
+        en = [x for x, _ in run.enabled(i)]
+        t = rng.choice(TAGS)
+        run.do({"op": "mask", "inst": i, "tag": None, "field": None})
+        run.do({"op": "mask", "inst": i, "tag": t, "field": None})
+        run.do({"op": "value", "inst": i, "tag": rng.choice([None, t]), "field": None})
+        if en:
+            f = rng.choice(en)
+            run.do({"op": "tags", "inst": i, "field": f})
+            run.do({"op": rng.choice(["loc", "mask", "value"]), "inst": i, "tag": None, "field": f}
+                   if rng.random() < 0.5 else {"op": "loc", "inst": i, "field": f})
+    if not run.dead:
+        finish(rng, run)
+    return seal(run)
+
+
 def gen_wide_history(rng):
     """bit fields of 64-160 bits with automatically sized neighbours whose largest values are 2^k, 2^k +- 1"""
     USED_VALUES.clear()
@@ -874,6 +976,29 @@ def seal(run):
                 continue
             seen_fv.add(fvk)
             run.fvs.append((i, [[k, _i(v)] for k, v in b.field_values.items()]))
+    # get_mask() needs no values: the mask of every instance - also partially specified ones - with and without tag
+    run.masks = []
+    if not run.dead:
+        from rig import bitfield
+        done = set()
+        for i, b in enumerate(run.insts):
+            fv = [[k, _i(v)] for k, v in b.field_values.items()]
+            fvk = json.dumps(sorted(fv))
+            if fvk in done or len(done) >= 12:
+                continue
+            done.add(fvk)
+            for t in [None] + TAGS:
+                try:
+                    with cpu_limit():
+                        m = _i(b.get_mask(tag=t))
+                except (ValueError, LookupError):
+                    continue
+                except common.ImplHang as e:
+                    _HANGS[0] += 1
+                    if run.hung is None:
+                        run.hung = (len(run.ops), "reading masks back: " + str(e))
+                    break
+                run.masks.append((i, fv, t, m))
     run.kept_changed = [sorted(snap) for got, snap in run.kept if got != snap]
     return run
 
@@ -916,6 +1041,8 @@ def eval_runs(ctx, runs):
         # the instance invariant (values_fit, inst_ok) on every instance the history created, complete or not
         for i, fv in run.fvs:
             ask("inst", ri, i, op="instance", entries=final, fv=fv)
+        for (i, fv, t, m) in run.masks:
+            ask("pmask", ri, (i, t, len(fv)), op="key_oracle", entries=final, fv=fv, key=0, mask=m, tag=t, locs=[])
 
     replies = ctx.lean(reqs)
     for (tag, ri, info), rep in zip(idx, replies):
@@ -964,6 +1091,12 @@ def eval_runs(ctx, runs):
                               "(instance %d, tag %r)" % (i, t), case)
             if not rep["mask_exact"] or not rep["mask_is_locs"]:
                 ctx.violation("mask", "mask is not the union of the present fields' bits (instance %d, tag %r)" % (i, t), case)
+        elif tag == "pmask":
+            i, t, nv = info
+            ctx.tag("mask_of_instance_with_%s_values" % (nv if nv < 4 else "4+"))
+            if not rep["mask_exact"]:
+                ctx.violation("mask", "get_mask(tag=%r) of instance %d (%d values given) is not the union of the bits of the "
+                              "fields present in it" % (t, i, nv), case)
         elif tag == "inst":
             if not rep["values_fit"]:
                 ctx.violation("value-too-wide", "instance %d holds a value that does not fit the length of its field" % info,
@@ -1016,6 +1149,8 @@ def eval_runs(ctx, runs):
         st = run.final
         scopes = len({json.dumps(e["path"]) for e in st})
         assigned_ok = any(o["op"] == "assign" and "ok" in r for o, r in zip(run.ops, run.results))
+        if getattr(run, "deep", False):
+            ctx.tag("deep_assign_%s" % ("ok" if assigned_ok else "raises"))
         for o, r in zip(run.ops, run.results):
             ctx.tag("%s_%s" % (o["op"], "ok" if "ok" in r else r["err"]))
         if any(o.get("spare") for o in run.ops):
@@ -1129,6 +1264,26 @@ def run(ctx):
             eval_runs(ctx, runs)
             runs = []
     ctx.tag("wide_histories_%d" % made_w)
+    # hierarchies 2-4 levels deep, explicit / automatic positions and lengths side by side, every selector prefix queried
+    n_deep = ctx.scale(500, 10000) * (4 if ctx.extended else 1)
+    made_d = 0
+    while made_d < n_deep and _HANGS[0] < 60:
+        run_ = gen_deep_history(rng)
+        run_.deep = True
+        runs.append(run_)
+        made_d += 1
+        extra = pairs_for(run_)
+        runs += extra
+        made_d += len(extra)
+        if not run_.dead and rng.random() < 0.3:
+            top = tighten(run_)
+            if 1 <= top != run_.length:
+                runs.append(replay_ops(top, retarget(run_.ops, run_.length, top), run_.rootopts))
+                made_d += 1
+        if len(runs) >= 1500:
+            eval_runs(ctx, runs)
+            runs = []
+    ctx.tag("deep_histories_%d" % made_d)
     batch = 2500
     made = 0
     while made < n and _HANGS[0] < 60:
